@@ -50,7 +50,20 @@ def run(ck):
     lib = ctx.lib(ck)
     if lib is None:
         return
+    # the storage of the queue: the one field of `self` (tuple field or named field) that the deque operations of
+    # push_error / pop_error / error_count are applied to - the same place in all three
     SELF0 = ("tproj", ("param", "self"), 0)
+    places = set()
+    for fn in ("push_error", "pop_error", "error_count"):
+        ex_, _ = ctx.summarize(lib, Q + fn, ck)
+        for x_ in ex_ or []:
+            for e_ in x_.effects:
+                if e_[0] == "call" and e_[1].startswith(DEQ) and e_[2]:
+                    places.add(e_[2][0])
+    if len(places) == 1:
+        pl = next(iter(places))
+        if pl[0] in ("tproj", "field") and pl[1] == ("param", "self"):
+            SELF0 = pl
 
     # ---- C09-Q push_error
     ex, ps = ctx.summarize(lib, Q + "push_error", ck)
@@ -129,6 +142,8 @@ def run(ck):
                 and all(e[1] in (EQ + "push_error", EC + "error_queue") for e in calls) and x.kind == "return"
             ck.judge(ok, "C09-H", "handle_error:path#%d" % i, "handle_error pushes its argument once, unchanged",
                      "handle_error is %s" % pathsum.show_exit(x))
+    text_cases = set()
+    text_e0 = None
     ex, ps = ctx.summarize(lib, EC + "system_error_next", ck)
     if ck.anchor("C09-H", EC + "system_error_next", ex):
         ck.floor("C09-H", "paths of system_error_next", len(ex), 2)
@@ -144,13 +159,34 @@ def run(ck):
                 ok = v[0] == "ctor" and v[1] == OK and v[2][0][0] == "tuple" and len(v[2][0][1]) == 2
                 if ok:
                     a, b = v[2][0][1]
-                    ok = a[0] == "call" and a[1] == "microscpi::error::Error::number" and a[2] == (e0,) and b[0] == "call" and b[1].endswith("::into") and b[2] == (e0,)
-                ck.judge(ok, "C09-H", "system_error_next:some", "entry e -> Ok((e.number(), e.into()))", "NEXT? answers %s for a stored entry" % show_term(v))
+                    ok = a[0] == "call" and a[1] == "microscpi::error::Error::number" and a[2] == (e0,)
+                    if ok and b[0] == "call" and b[1].split("::")[-1] in ("into", "from") and b[2] == (e0,):
+                        pass        # the conversion Error -> &str, called as such
+                    elif ok:
+                        # the text comes from a private helper evaluated in place (one path per variant): collected and
+                        # compared, as a case split over the entry, with the conversion Error -> &str below
+                        e0s = pathsum.strip_sites(e0)
+                        cs = frozenset(pathsum.strip_sites(c) for c in x.conds if any(u == e0s for u in pathsum.subterms(pathsum.strip_sites(c[1]))))
+                        text_cases.add((cs, pathsum.strip_sites(b)))
+                        text_e0 = e0s
+                ck.judge(ok, "C09-H", "system_error_next:some#%d" % i if text_cases else "system_error_next:some", "entry e -> Ok((e.number(), <text of e>))", "NEXT? answers %s for a stored entry" % show_term(v))
             elif some is False:
                 ok = v == ("ctor", OK, (("tuple", (("lit", "int", 0), ("lit", "str", ""))),))
                 ck.judge(ok, "C09-H", "system_error_next:none", "empty queue -> Ok((0, \"\"))", "NEXT? answers %s for an empty queue" % show_term(v))
             else:
                 ck.bad("C09-H", "system_error_next:path#%d" % i, "result of pop_error is not inspected")
+    if text_cases:
+        conv = [b_ for b_ in lib.facts["bodies"] if (b_.get("trait_ref") or "").endswith("core::convert::From<microscpi::error::Error>>") and "str" in (b_.get("self_ty") or "")]
+        want = set()
+        if len(conv) == 1:
+            cex, cps = ctx.summarize(lib, conv[0]["def"], ck)
+            pn = conv[0]["params"][0].get("name")
+            for cx in cex or []:
+                if cx.kind == "return" and cx.value is not None:
+                    sub = lambda t: ctx.subst_term(pathsum.strip_sites(t), ("param", pn), text_e0)
+                    want.add((frozenset(sub(c) for c in cx.conds), sub(cx.value)))
+        ck.judge(len(conv) == 1 and want == text_cases, "C09-H", "system_error_next:text", "the text of an entry is, case by case, what the conversion Error -> &str yields (%d cases)" % len(want),
+                 "the text NEXT? reports for an entry differs from the conversion Error -> &str: %s" % sorted(show_term(t) for _, t in (text_cases ^ want))[:4])
     ex, ps = ctx.summarize(lib, EC + "system_error_count", ck)
     if ck.anchor("C09-H", EC + "system_error_count", ex):
         for i, x in enumerate(ex):
@@ -174,7 +210,8 @@ def run(ck):
 
     # ---- C09-T tables
     num = table(lib, "microscpi::error::Error::number")
-    txt = table(lib, "microscpi::error::<impl core::convert::From<microscpi::error::Error> for &str>::from")
+    conv_ = [b_["def"] for b_ in lib.facts["bodies"] if (b_.get("trait_ref") or "").endswith("core::convert::From<microscpi::error::Error>>") and "str" in (b_.get("self_ty") or "")]
+    txt = table(lib, conv_[0]) if len(conv_) == 1 else None
     variants = [v["name"] for e in lib.facts["enums"] if e["path"] == "microscpi::error::Error" for v in e["variants"]]
     ck.floor("C09-T", "Error variants", len(variants), 60)
     if ck.anchor("C09-T", "Error::number table", num) and ck.anchor("C09-T", "From<Error> for &str table", txt):
@@ -247,7 +284,45 @@ def rule_D(ck):
 
 
 def table(lib, path):
-    """variant -> literal for a `match self { Error::V => lit, ... }` function."""
+    """variant -> literal for a function that maps an Error to a literal by a case split on its variant: read from the
+    path summaries (helpers evaluated in place), so it does not matter in which function the `match` is written."""
+    b = lib.body(path)
+    if b is None:
+        return None
+    try:
+        ex, ps = ctx.summarize(lib, path)
+    except pathsum.Unsupported:
+        ex = None
+    out = {}
+    pn = b["params"][0].get("name") if b["params"] else None
+    for x in ex or []:
+        if x.kind != "return" or x.value is None:
+            continue
+        var = None
+        neg = set()
+        for c in x.conds:
+            if c[0] == "is" and c[1] == ("param", pn) and c[2].startswith("microscpi::error::Error::"):
+                if c[3] is True:
+                    var = c[2].split("::")[-1]
+                else:
+                    neg.add(c[2].split("::")[-1])
+        if var is None:
+            # the last arm of an exhaustive match: the one variant not excluded
+            allv = [v_["name"] for e_ in lib.facts["enums"] if e_["path"] == "microscpi::error::Error" for v_ in e_["variants"]]
+            rest = [v_ for v_ in allv if v_ not in neg]
+            if len(rest) == 1:
+                var = rest[0]
+        v = pathsum.strip_sites(x.value)
+        if v[0] == "un" and v[1] == "Neg" and v[2][0] == "lit":
+            v = ("lit", v[2][1], -v[2][2])
+        if var is not None and v[0] == "lit":
+            out[var] = v[2]
+    if out:
+        return out
+    return table_syntactic(lib, path)
+
+
+def table_syntactic(lib, path):
     v = lib.fn_value(path)
     if v is None:
         return None
